@@ -342,6 +342,8 @@ func runProp(prop, tier, repo, verif string, workers int, seed int64, solverBin,
 		hs.WallS += r.WallS
 		agg.Paths += s.Paths
 		agg.Decisions += s.Decisions
+		agg.Truncated += s.Truncated
+		agg.IfConverted += s.IfConverted
 		agg.Done += s.Done
 		agg.Panics += s.Panics
 		agg.Infeasible += s.Infeasible
@@ -544,6 +546,8 @@ func runProp(prop, tier, repo, verif string, workers int, seed int64, solverBin,
 		"explore_wall_s":                round2(tExplore),
 		"load_ssa_s":                    round2(tLoad),
 		"interpreted_steps":             agg.Steps,
+		"enumerations_truncated":        agg.Truncated,
+		"branches_if_converted":         agg.IfConverted,
 		"max_path_steps":                agg.MaxPathSteps,
 		"functions_encoded":             funcs,
 		"functions_encoded_count":       len(funcs),
